@@ -1507,3 +1507,632 @@ func (x *c07Ctx) applySpecial(mut c07Mut) c07Special {
 	}
 	return res
 }
+
+// ---------------------------------------------------------------------------------------------
+// oracle
+
+type c07Res struct {
+	Skip   string
+	Labels []string
+	Err    error
+	Txid   string // variant that violated
+	Cov    bool   // the mutant changes a covered field
+}
+
+// c07Classify maps a mutation to the root cause it is known to trigger (narrow: mutation kind only).
+func c07Classify(mut c07Mut) string {
+	if mut.Class == "forge" {
+		switch mut.Kind {
+		case "xs-ecdsa", "xs-der":
+			return c07FindXsSingle
+		case "xs-rogue":
+			return c07FindRogue
+		}
+	}
+	return ""
+}
+
+func c07TopField(mut c07Mut) string {
+	top, _, _ := c07ParseSeg(strings.Split(mut.Path, ".")[0])
+	return top
+}
+
+// c07CoveredKey: canonical rendering of everything the digest must cover.
+func c07CoveredKey(tx *pb.Transaction) []byte {
+	c := hx.CloneTx(tx)
+	c.Txid, c.Blockid, c.ReceivedTimestamp, c.ModifyBlock = nil, nil, 0, nil
+	c07StripSigs(c)
+	if c.HDInfo != nil && len(c.HDInfo.HdPublicKey) == 0 && len(c.HDInfo.OriginalHash) == 0 {
+		c.HDInfo = nil
+	}
+	b, err := protov2.MarshalOptions{Deterministic: true}.Marshal(proto.MessageV2(c))
+	if err != nil {
+		panic(err)
+	}
+	return b
+}
+
+// c07Registry: v3 digests seen in this process -> covered content (length-prefix injectivity).
+type c07Registry struct {
+	m   map[[32]byte][32]byte
+	raw map[[32]byte][]byte
+}
+
+func newC07Registry() *c07Registry {
+	return &c07Registry{m: map[[32]byte][32]byte{}, raw: map[[32]byte][]byte{}}
+}
+
+// note registers tx; it returns the earlier transaction (marshalled) if one with different covered
+// content has the same digest.
+func (r *c07Registry) note(tx *pb.Transaction) []byte {
+	if r == nil || tx.Version != 3 || len(r.m) > 400000 {
+		return nil
+	}
+	var d [32]byte
+	copy(d[:], c07Digest(tx))
+	ck := sha256.Sum256(c07CoveredKey(tx))
+	if old, ok := r.m[d]; ok {
+		if old != ck {
+			return r.raw[d]
+		}
+		return nil
+	}
+	r.m[d] = ck
+	if len(r.raw) < 20000 {
+		b, _ := proto.Marshal(tx)
+		r.raw[d] = b
+	}
+	return nil
+}
+
+func c07CollideCheck(a, b *pb.Transaction) error {
+	if a.Version == 3 && b.Version == 3 && bytes.Equal(c07Digest(a), c07Digest(b)) && !bytes.Equal(c07CoveredKey(a), c07CoveredKey(b)) {
+		return fmt.Errorf("two v3 transactions with different covered content share the signing digest %x", c07Digest(a))
+	}
+	return nil
+}
+
+// eval applies one mutation to the accepted base and judges the outcome by the statement.
+func (x *c07Ctx) eval(mut c07Mut, reg *c07Registry, sampleSubmit bool) (res c07Res) {
+	T := x.T
+	form := "form:" + x.b.Form
+	res.Labels = []string{form, fmt.Sprintf("v%d", T.Version), "class:" + mut.Class}
+	fail := func(variant, format string, args ...interface{}) c07Res {
+		res.Txid = variant
+		res.Err = fmt.Errorf("%s [base: %s]", fmt.Sprintf(format, args...), c07Describe(T))
+		return res
+	}
+	switch mut.Class {
+	case "walk", "shift":
+		m, err := c07ApplyWalk(T, mut)
+		if err != nil {
+			res.Skip = "inapplicable: " + err.Error()
+			return res
+		}
+		if proto.Equal(m, T) {
+			res.Skip = "null-reencoding"
+			return res
+		}
+		scope := c07Scope(mut.Path, T.Version)
+		res.Labels = append(res.Labels, "scope:"+scope, "field:"+c07TopField(mut), "kind:"+mut.Kind)
+		switch scope {
+		case "outside":
+			res.Skip = "outside-statement"
+			return res
+		case "sigcarrier":
+			if bytes.Equal(c07ID(m), T.Txid) {
+				res.Skip = "null-reencoding"
+				return res
+			}
+			if ok, _ := x.verify(m); ok {
+				return fail("stale", "%s %s changes a signature carrier, yet the transaction is accepted under its old txid (the id does not cover it)", mut.Path, mut.Kind)
+			}
+			// with a recomputed id nothing is asserted: the carrier may be an equivalent encoding of
+			// the same valid signature; the semantic signature mutations are separate (class sig)
+			m.Txid = c07ID(m)
+			if ok, why := x.verify(m); ok {
+				res.Labels = append(res.Labels, "sigcarrier-reencoded-accepted")
+			} else if strings.HasPrefix(why, "PANIC") {
+				res.Labels = append(res.Labels, "sigcarrier-panic")
+				if !c07Exclude[c07FindXsPanic] {
+					return fail("fresh", "%s %s: the verifier panics instead of rejecting: %s", mut.Path, mut.Kind, why)
+				}
+			}
+			return res
+		}
+		res.Cov = true
+		d := c07Digest(m)
+		if mut.Class == "shift" && T.Version < 3 {
+			// legacy json-stream digest: multi-field collisions are outside the statement
+			if bytes.Equal(d, x.digest) {
+				res.Labels = append(res.Labels, "legacy-shift-collides")
+				res.Skip = "legacy-multi-field"
+				return res
+			}
+		}
+		if bytes.Equal(d, x.digest) {
+			return fail("digest", "%s %s changes a covered field but the signing digest is unchanged (%x)", mut.Path, mut.Kind, d)
+		}
+		if old := reg.note(m); old != nil {
+			o := &pb.Transaction{}
+			proto.Unmarshal(old, o)
+			res.Err = c07CollideCheck(o, m)
+			if res.Err != nil {
+				res.Txid = "collide:" + hex.EncodeToString(old)
+				return res
+			}
+		}
+		if ok, _ := x.verify(m); ok {
+			return fail("stale", "%s %s changes a covered field, keeps the old signatures and txid, and is accepted", mut.Path, mut.Kind)
+		}
+		m.Txid = c07ID(m)
+		if ok, why := x.verify(m); ok {
+			return fail("fresh", "%s %s changes a covered field, keeps the old signatures (txid recomputed), and is accepted", mut.Path, mut.Kind)
+		} else if strings.HasPrefix(why, "PANIC") {
+			return fail("fresh", "%s %s: the verifier panics instead of rejecting: %s", mut.Path, mut.Kind, why)
+		}
+		if sampleSubmit && len(m.TxInputs) > 0 {
+			if err := x.submit(m); err == nil {
+				return fail("fresh", "%s %s: Chain.SubmitTx admits the mutant", mut.Path, mut.Kind)
+			}
+			res.Labels = append(res.Labels, "submit-mutant-refused")
+		}
+		return res
+	}
+	sp := x.applySpecial(mut)
+	if sp.skip != "" {
+		res.Skip = "inapplicable: " + sp.skip
+		return res
+	}
+	res.Labels = append(res.Labels, "kind:"+mut.Class+"/"+mut.Kind)
+	if sp.note != "" {
+		res.Labels = append(res.Labels, mut.Class+"/"+mut.Kind+":"+sp.note)
+	}
+	m := sp.tx
+	res.Cov = !bytes.Equal(c07Digest(m), x.digest)
+	if sp.staleAlso {
+		st := hx.CloneTx(m)
+		st.Txid = T.Txid
+		if bytes.Equal(c07ID(st), T.Txid) {
+			res.Skip = "null-reencoding"
+			return res
+		}
+		if sp.staleReject {
+			if ok, _ := x.verify(st); ok {
+				return fail("stale", "%s/%s (arg %d,%d): accepted under the old txid", mut.Class, mut.Kind, mut.Arg, mut.Arg2)
+			}
+		}
+	}
+	m.Txid = c07ID(m)
+	ok, why := x.verify(m)
+	if strings.HasPrefix(why, "PANIC") {
+		return fail("fresh", "%s/%s: the verifier panics instead of rejecting: %s", mut.Class, mut.Kind, why)
+	}
+	if ok {
+		if sp.mustReject {
+			return fail("fresh", "%s/%s (arg %d,%d) is accepted by VerifyTx although a required signer never signed it: %s", mut.Class, mut.Kind, mut.Arg, mut.Arg2, c07Describe(m))
+		}
+		res.Labels = append(res.Labels, mut.Class+"/"+mut.Kind+":accepted-as-allowed")
+		return res
+	}
+	if sp.mustReject && sampleSubmit && len(m.TxInputs) > 0 {
+		if err := x.submit(m); err == nil {
+			return fail("fresh", "%s/%s: Chain.SubmitTx admits the mutant", mut.Class, mut.Kind)
+		}
+		res.Labels = append(res.Labels, "submit-mutant-refused")
+	}
+	return res
+}
+
+// allMuts: the deterministic enumeration for the base.
+func (x *c07Ctx) allMuts() []c07Mut {
+	var out []c07Mut
+	c07WalkMuts(proto.MessageReflect(x.T), "", &out)
+	return append(out, x.specialMuts()...)
+}
+
+// c07Shape: the base shape descriptor of the non-triviality key.
+func (x *c07Ctx) shape() string {
+	T := x.T
+	rule := ""
+	if x.b.Acct != nil {
+		rule = x.b.Acct.Rule
+	}
+	return fmt.Sprintf("%s/v%d/in%d/out%d/rx%d/wx%d/req%d/auth%d/init%d/%s/hd%v", x.b.Form, T.Version, len(T.TxInputs), len(T.TxOutputs),
+		len(T.TxInputsExt), len(T.TxOutputsExt), len(T.ContractRequests), len(T.AuthRequire), len(T.InitiatorSigns), rule, T.HDInfo != nil)
+}
+
+func (x *c07Ctx) multiOrAcct() bool {
+	return len(x.signed) >= 2 || x.b.Form == "acctinit" || x.b.Form == "acctin"
+}
+
+// c07Run: plain interpreter of a trace (replays, witnesses).
+func c07Run(els []c07TraceEl, fs *hx.FindingSet) error {
+	var base *c07Base
+	var mut *c07Mut
+	for i := range els {
+		if len(els[i].Collide) == 2 {
+			a, b := &pb.Transaction{}, &pb.Transaction{}
+			ab, _ := hex.DecodeString(els[i].Collide[0])
+			bb, _ := hex.DecodeString(els[i].Collide[1])
+			if proto.Unmarshal(ab, a) != nil || proto.Unmarshal(bb, b) != nil {
+				return fmt.Errorf("bad collide element")
+			}
+			return c07CollideCheck(a, b)
+		}
+		if els[i].Base != nil {
+			base = els[i].Base
+		}
+		if els[i].Mut != nil {
+			mut = els[i].Mut
+		}
+	}
+	if base == nil {
+		return fmt.Errorf("trace has no base")
+	}
+	x, err := c07Prepare(base, fs)
+	if err != nil {
+		if strings.HasPrefix(err.Error(), "setup:") {
+			return nil // not a statement of C07
+		}
+		return err
+	}
+	defer x.Close()
+	if mut == nil {
+		return nil
+	}
+	m := *mut
+	m.Txid = ""
+	return x.eval(m, nil, true).Err
+}
+
+func init() {
+	replayers["C07/tx-mutations"] = func(raw json.RawMessage, fs *hx.FindingSet) error {
+		var els []c07TraceEl
+		if err := json.Unmarshal(raw, &els); err != nil {
+			return err
+		}
+		return c07Run(els, fs)
+	}
+	for _, id := range []string{c07FindXsSingle, c07FindRogue, c07FindXsPanic} {
+		replayers["C07/witness-"+id] = replayers["C07/tx-mutations"]
+	}
+}
+
+// ---------------------------------------------------------------------------------------------
+// generator
+
+func c07Amount(s string) *big.Int {
+	a, _ := new(big.Int).SetString(s, 10)
+	if a == nil {
+		a = big.NewInt(0)
+	}
+	return a
+}
+
+func c07HasIn(spec *hx.TxSpec, u *hx.UTXO) bool {
+	for _, r := range spec.Ins {
+		if r.Txid == hex.EncodeToString(u.Txid) && r.Off == u.Off {
+			return true
+		}
+	}
+	return false
+}
+
+// c07AddIn makes spec spend u too and pay the amount to ring key `to`.
+func c07AddIn(spec *hx.TxSpec, u *hx.UTXO, to int) {
+	r := hx.InRef{Addr: -1, AddrS: u.Addr, Txid: hex.EncodeToString(u.Txid), Off: u.Off, Amount: u.Amount.String(), Frozen: u.Frozen}
+	if k := hx.KeyOf(u.Addr); k != nil {
+		r.Addr, r.AddrS = k.Idx, ""
+	}
+	spec.Ins = append(spec.Ins, r)
+	spec.Outs = append(spec.Outs, hx.OutSpec{To: to, Amount: u.Amount.String()})
+}
+
+type c07Gen struct {
+	rt *rapid.T
+	nm *hx.NodeMachine
+	b  *c07Base
+}
+
+func (g *c07Gen) apply(op hx.NOp) error {
+	g.b.Prep = append(g.b.Prep, op)
+	return g.nm.Apply(op)
+}
+
+func (g *c07Gen) mine() error {
+	if g.nm.Ptr != g.nm.LM.M.Tip {
+		return nil
+	}
+	return g.apply(hx.NOp{Op: "mine", Label: fmt.Sprintf("b%d", len(g.nm.LM.M.Blocks)), Proposer: rapid.IntRange(0, 2).Draw(g.rt, "proposer")})
+}
+
+// payer picks inputs of ring key `from` worth at least need.
+func (g *c07Gen) payer(from int, need *big.Int) ([]hx.InRef, *big.Int, bool) {
+	tot := big.NewInt(0)
+	var ins []hx.InRef
+	for _, u := range spendable(g.nm.PoolState(), hx.Ring[from].Address, c07Height(g.nm), false) {
+		ins = append(ins, hx.InRef{Addr: from, Txid: hex.EncodeToString(u.Txid), Off: u.Off, Amount: u.Amount.String()})
+		tot.Add(tot, u.Amount)
+		if tot.Cmp(need) >= 0 {
+			return ins, tot, true
+		}
+	}
+	return nil, nil, false
+}
+
+// newAccountSpec: the $acl.NewAccount transaction for acct paid by ring key from.
+func (g *c07Gen) newAccountSpec(a *c07Acct, from int, version int32) (hx.TxSpec, bool) {
+	ins, tot, ok := g.payer(from, big.NewInt(5000))
+	if !ok {
+		return hx.TxSpec{}, false
+	}
+	g.nm.Seq++
+	spec := hx.TxSpec{From: from, Seq: g.nm.Seq, Version: version, Contract: "$acl", Method: "NewAccount",
+		Args: map[string]string{"account_name": a.Num, "acl": c07AclJSON(a)}, Ins: ins}
+	gas := int64(1000)
+	if _, pre := g.nm.BuildOnModel(&spec, g.nm.PoolState()); pre != nil && pre.Err == nil && pre.GasUsed > 0 {
+		gas = pre.GasUsed
+	}
+	spec.Outs = []hx.OutSpec{{To: -1, Amount: fmt.Sprint(gas)}, {To: from, Amount: new(big.Int).Sub(tot, big.NewInt(gas)).String()}}
+	return spec, true
+}
+
+func (g *c07Gen) drawAcct(num string) *c07Acct {
+	rt := g.rt
+	a := &c07Acct{Num: num}
+	n := rapid.IntRange(1, 3).Draw(rt, "naks")
+	start := rapid.IntRange(0, 9).Draw(rt, "akstart")
+	for i := 0; i < n; i++ {
+		k := (start + i*3) % 10
+		if k == hx.MinerKey {
+			k = 8
+		}
+		dup := false
+		for _, o := range a.Aks {
+			if o == k {
+				dup = true
+			}
+		}
+		if !dup {
+			a.Aks = append(a.Aks, k)
+		}
+	}
+	if rapid.Bool().Draw(rt, "akset") {
+		a.Rule = "akset"
+		a.Sets = [][]int{append([]int{}, a.Aks...)}
+		if len(a.Aks) > 1 && rapid.Bool().Draw(rt, "twosets") {
+			a.Sets = [][]int{a.Aks[:1], a.Aks[1:]}
+		}
+		return a
+	}
+	a.Rule = "threshold"
+	sum := 0.0
+	for range a.Aks {
+		w := float64(rapid.IntRange(1, 3).Draw(rt, "weight")) * 0.25
+		a.Weights = append(a.Weights, w)
+		sum += w
+	}
+	switch rapid.IntRange(0, 2).Draw(rt, "accept") {
+	case 0:
+		a.Accept = sum // everybody
+	case 1:
+		a.Accept = a.Weights[0] // the first member alone suffices
+	default:
+		a.Accept = sum / 2
+	}
+	return a
+}
+
+// satisfying draws a member subset that satisfies the rule (all members, or a minimal prefix).
+func (g *c07Gen) satisfying(a *c07Acct) []int {
+	if a.Rule == "akset" {
+		s := a.Sets[rapid.IntRange(0, len(a.Sets)-1).Draw(g.rt, "whichset")]
+		return append([]int{}, s...)
+	}
+	if rapid.Bool().Draw(g.rt, "allmembers") {
+		return append([]int{}, a.Aks...)
+	}
+	ks := map[int]bool{}
+	var out []int
+	for _, k := range a.Aks {
+		ks[k] = true
+		out = append(out, k)
+		if a.satisfied(ks) {
+			break
+		}
+	}
+	return out
+}
+
+// c07GenBase prepares the node (recording the operations) and draws the base scenario.
+func c07GenBase(rt *rapid.T, nm *hx.NodeMachine) (*c07Base, error) {
+	b := &c07Base{}
+	g := &c07Gen{rt: rt, nm: nm, b: b}
+	b.Form = rapid.SampledFrom([]string{"ak", "ak", "multi", "multi", "multi", "acctinit", "acctinit", "acctin", "acctin", "xsign", "xsign"}).Draw(rt, "form")
+	version := int32(rapid.SampledFrom([]int{1, 2, 3, 3}).Draw(rt, "version"))
+	cfg := defaultGenCfg()
+	cfg.ContractPct = 50
+	// warm-up: pending and confirmed transfers / contract writes, sometimes money for $verif
+	nw := rapid.IntRange(0, 4).Draw(rt, "warm")
+	for i := 0; i < nw; i++ {
+		switch k := rapid.IntRange(0, 9).Draw(rt, "warmkind"); {
+		case k < 2:
+			if err := g.mine(); err != nil {
+				return b, err
+			}
+		case k < 4 && len(nm.PoolState().UtxosOf(hx.VerifContract)) == 0:
+			c2 := cfg
+			c2.ContractPct = 0
+			spec, ok := genTxSpec(rt, nm, nm.PoolState(), c2, c07Height(nm), false)
+			if !ok {
+				continue
+			}
+			tot := big.NewInt(0)
+			for _, in := range spec.Ins {
+				tot.Add(tot, c07Amount(in.Amount))
+			}
+			if tot.Cmp(big.NewInt(500)) <= 0 {
+				continue
+			}
+			spec.Prog = []hx.Ins{{Op: "get", K: "a"}}
+			spec.ConAmt = int64(rapid.IntRange(50, 300).Draw(rt, "conamt"))
+			spec.Outs = []hx.OutSpec{{To: -2, ToS: hx.VerifContract, Amount: fmt.Sprint(spec.ConAmt)}, {To: spec.From, Amount: new(big.Int).Sub(tot, big.NewInt(spec.ConAmt)).String()}}
+			if err := g.apply(hx.NOp{Op: "tx", Tx: &spec}); err != nil {
+				return b, err
+			}
+		default:
+			spec, ok := genTxSpec(rt, nm, nm.PoolState(), cfg, c07Height(nm), false)
+			if !ok {
+				continue
+			}
+			if err := g.apply(hx.NOp{Op: "tx", Tx: &spec}); err != nil {
+				return b, err
+			}
+		}
+	}
+	// account scenarios: create the account through the real $acl contract, fund it, confirm both
+	if b.Form == "acctinit" || b.Form == "acctin" || rapid.IntRange(0, 5).Draw(rt, "acctanyway") == 0 {
+		a := g.drawAcct(rapid.SampledFrom([]string{"1111111111111111", "2222222222222222", "1234567890123456"}).Draw(rt, "acctnum"))
+		creator := rapid.IntRange(0, 4).Draw(rt, "creator")
+		spec, ok := g.newAccountSpec(a, creator, int32(rapid.SampledFrom([]int{1, 2, 3}).Draw(rt, "acctver")))
+		if !ok {
+			return b, fmt.Errorf("setup: creator %d cannot pay for the account", creator)
+		}
+		if err := g.apply(hx.NOp{Op: "tx", Tx: &spec}); err != nil {
+			return b, err
+		}
+		if nm.LastOutcome != "admitted" {
+			return b, fmt.Errorf("setup: NewAccount transaction was %s", nm.LastOutcome)
+		}
+		funder := rapid.IntRange(0, 4).Draw(rt, "funder")
+		ins, tot, ok := g.payer(funder, big.NewInt(9000))
+		if !ok {
+			return b, fmt.Errorf("setup: funder %d cannot fund the account", funder)
+		}
+		nm.Seq++
+		name := c07AcctName(a)
+		f := hx.TxSpec{From: funder, Seq: nm.Seq, Version: 3, Ins: ins, Outs: []hx.OutSpec{
+			{To: -2, ToS: name, Amount: "4000"}, {To: -2, ToS: name, Amount: "2500"}, {To: -2, ToS: name, Amount: "700"},
+			{To: funder, Amount: new(big.Int).Sub(tot, big.NewInt(7200)).String()}}}
+		if err := g.apply(hx.NOp{Op: "tx", Tx: &f}); err != nil {
+			return b, err
+		}
+		if err := g.mine(); err != nil {
+			return b, err
+		}
+		b.Acct = a
+	}
+	// the base transaction
+	s := nm.PoolState()
+	h := c07Height(nm)
+	spec, ok := genTxSpec(rt, nm, s, cfg, h, false)
+	if !ok {
+		return b, fmt.Errorf("setup: nobody can pay")
+	}
+	spec.Version = version
+	if rapid.Bool().Draw(rt, "desc") {
+		spec.Desc = fmt.Sprintf("d%d", spec.Seq)
+	}
+	if rapid.IntRange(0, 5).Draw(rt, "newacct") == 0 {
+		// the base itself creates (another) account: kernel contract with a two-entry argument map
+		a2 := g.drawAcct("9999999999999999")
+		if sp, ok := g.newAccountSpec(a2, spec.From, version); ok {
+			sp.Desc = spec.Desc
+			spec = sp
+		}
+	}
+	if len(spec.Prog) > 0 {
+		if cu := s.UtxosOf(hx.VerifContract); len(cu) == 1 && cu[0].Frozen == 0 && rapid.Bool().Draw(rt, "contransfer") {
+			amt := int64(rapid.IntRange(1, int(minI64c07(cu[0].Amount.Int64(), 50))).Draw(rt, "xferamt"))
+			spec.Prog = append(spec.Prog, hx.Ins{Op: "transfer", To: hx.Ring[rapid.IntRange(0, 5).Draw(rt, "xferto")].Address, Amt: amt})
+		}
+	}
+	b.HD = rapid.IntRange(0, 2).Draw(rt, "hd") == 0
+	drawSigners := func(min, max int, distinct bool) {
+		n := rapid.IntRange(min, max).Draw(rt, "nsigners")
+		for i := 0; i < n; i++ {
+			k := rapid.IntRange(0, 9).Draw(rt, "signer")
+			if k == hx.MinerKey {
+				k = 8
+			}
+			if distinct {
+				for tries := 0; tries < 12; tries++ {
+					clash := k == spec.From
+					for _, o := range b.Signers {
+						if o.Key == k {
+							clash = true
+						}
+					}
+					if !clash {
+						break
+					}
+					k = (k + 1) % 10
+					if k == hx.MinerKey {
+						k = 8
+					}
+				}
+			}
+			sg := c07Signer{Key: k, Acct: rapid.IntRange(0, 3).Draw(rt, "asuri") == 0}
+			b.Signers = append(b.Signers, sg)
+			// sometimes the further signer's money is spent too, so that its signature is needed
+			if us := spendable(s, hx.Ring[k].Address, h, false); k != spec.From && len(us) > 0 && rapid.Bool().Draw(rt, "spendsigner") {
+				if u := us[rapid.IntRange(0, len(us)-1).Draw(rt, "whichu")]; !c07HasIn(&spec, u) {
+					c07AddIn(&spec, u, rapid.IntRange(0, 6).Draw(rt, "payto"))
+				}
+			}
+		}
+	}
+	acctIns := func() {
+		us := spendable(s, c07AcctName(b.Acct), h, false)
+		n := rapid.IntRange(1, minInt(2, len(us))).Draw(rt, "nacctins")
+		for i := 0; i < n; i++ {
+			c07AddIn(&spec, us[i], rapid.IntRange(0, 6).Draw(rt, "payto"))
+		}
+	}
+	switch b.Form {
+	case "ak":
+		b.NoSelf = rapid.IntRange(0, 3).Draw(rt, "noself") == 0
+	case "multi":
+		b.NoSelf = rapid.IntRange(0, 3).Draw(rt, "noself") == 0
+		drawSigners(1, 3, false)
+	case "xsign":
+		b.NoSelf = rapid.IntRange(0, 3).Draw(rt, "noself") == 0
+		drawSigners(1, 3, true)
+	case "acctin":
+		b.NoSelf = rapid.IntRange(0, 3).Draw(rt, "noself") == 0
+		acctIns()
+		for _, k := range g.satisfying(b.Acct) {
+			b.Signers = append(b.Signers, c07Signer{Key: k, Acct: true})
+		}
+		if rapid.IntRange(0, 2).Draw(rt, "extrasigner") == 0 {
+			drawSigners(1, 1, false)
+		}
+	case "acctinit":
+		b.InitAks = g.satisfying(b.Acct)
+		if rapid.IntRange(0, 2).Draw(rt, "spendacct") > 0 {
+			acctIns()
+			for _, k := range g.satisfying(b.Acct) {
+				b.Signers = append(b.Signers, c07Signer{Key: k, Acct: true})
+			}
+		}
+		if rapid.IntRange(0, 3).Draw(rt, "extrasigner") == 0 {
+			drawSigners(1, 1, false)
+		}
+		// the payer's own inputs need the payer among the verified keys
+		for _, k := range b.InitAks {
+			if k == spec.From && rapid.Bool().Draw(rt, "noself") {
+				b.NoSelf = true
+			}
+		}
+	}
+	b.Spec = spec
+	return b, nil
+}
+
+func minI64c07(a, b int64) int64 {
+	if a < b {
+		return a
+	}
+	return b
+}
